@@ -46,6 +46,10 @@ type WordList struct {
 
 // Size of the wordlist in the recipe
 func (r WLRecipe) Size() uint32 {
+	if r.list == nil {
+		// No word list yet: Generate reports this as an error
+		return 0
+	}
 	return r.list.Size()
 }
 
